@@ -57,6 +57,20 @@ def main():
     w("(Generated by `tools/mkdesign_asbuilt.py` from `coq/Props`, the harness modules, `findings/`, `seeded/`; "
       "regenerate after changes.)\n")
     total = 0
+    w("### 11.0 Commands\n")
+    w("* `./setup.sh` - regenerate `coq/Gen/*.v` from `/repo`, regenerate `_CoqProject`, full `.vo` build (`make -j16`).\n"
+      "* `./check Cxx [--tier quick|thorough] [--replay FILE]` - one property: regenerate Gen tables from `$PYRO5_TREE` (default `/repo`), "
+      "re-check `Props/Cxx.vo` (+ `Print Assumptions`, forbidden-construct scan; thorough: `coqchk -o`), probe quirk switches, run the "
+      "correspondence + oracle, write `evidence/Cxx.json`; exit 1 with `VIOLATION property=Cxx replay=<path>` lines (ending in "
+      "`no-failing-input-found` when a proof obligation / the correspondence broke but the search found no failing input), `KNOWN-FINDING:` "
+      "lines for open findings. `VERIF_SEED`, `VERIF_TIER`, `VERIF_NPROC` are honoured.\n"
+      "* `tools/run_all.sh [quick|thorough] [Cxx ...]` - all registered checks, one summary line each.\n"
+      "* `tools/mutant_run.sh <patch.diff> Cxx [tier]` - the same check against a scratch copy of `/repo` with the patch applied, in a scratch copy "
+      "of the Coq build directory (`VERIF_COQ_DIR`, `VERIF_OUT_DIR`); nothing in `/repo`, `coq/Gen` or `evidence/` is touched.\n"
+      "* `tools/seed_intake.sh`, `tools/seed_recheck.sh`, `tools/confirm_seed.sh` - confirm an independently written seeded change in a scratch "
+      "git worktree (demo fails with / passes without, full test-suite with the patch) and record which checks catch it.\n"
+      "* `tools/mkmanifest.py` (from `tools/manifest/*.json` + `claimed.json`), `tools/mkdesign_asbuilt.py` (this section), "
+      "`tools/update_finding_commits.py` - maintenance helpers, never run by a check.\n")
     w("### 11.1 Per property: model, tie, theorems\n")
     w("Every property is claimed at level *proof*: Coq theorems (no axioms; `Print Assumptions` under every theorem says "
       "\"Closed under the global context\") over an executable Gallina model, tied to `/repo` on every run by (a) Gen tables "
